@@ -48,6 +48,7 @@ REAL_VS_STUB = {"real": ["torchsde.BrownianInterval/BrownianTree/BrownianPath ar
 PROBES = ("law_runs", "levy_runs", "deep_sweeps", "levy_merged_mean", "point_evaluations", "gram_pairs", "overlapping_pairs", "H_checked", "bridge_W", "bridge_H", "whole_is_supplied",
           "cross_element_blocks", "levy_nodes_probed", "levy_foster", "levy_davie", "levy_root_probed", "levy_seeds_checked",
           "dyadic", "tol_grid", "tiny_cache", "labels_exhausted")
+# (not listed in PROBES because it is expected to stay at zero in most batches: inconclusive_32bit_seed_collision)
 STATE_MEASURE = "distinct final interval-tree shapes (hash of display_binary_tree dump)"
 
 MIX = {"uniform": 4, "sweep": 2, "adaptive": 2, "cluster": 1.5, "nested": 1.5, "requery": 1, "whole": 1, "triple": 3,
@@ -169,10 +170,36 @@ class Labeller:
         self.by_seed = {}
         self.levy_size = (L, *self.shape, self.shape[-1]) if len(self.shape) >= 1 else None
         self.foreign = 0
+        self.owners = {}  # seed -> set of node intervals that drew with it
+
+    def chance_collisions(self):
+        """Seeds drawn by more than one tree node. The library's per-node seeds are 32-bit values, so two of the n
+        nodes of a run share one by chance with probability ~ n^2 / 2^33 (2.6e-4 for the 1500 nodes of a deep sweep)."""
+        return sum(1 for v in self.owners.values() if len(v) > 1)
+
+    def _owner(self):
+        """Which tree node asked for this draw (its interval), found by looking up the call stack for a `self` with
+        `_start`/`_end`. White-box and optional: None if nothing like that is on the stack."""
+        import sys
+        f = sys._getframe(2)
+        for _ in range(6):
+            if f is None:
+                return None
+            o = f.f_locals.get("self")
+            if o is not None and hasattr(o, "_start") and hasattr(o, "_end"):
+                try:
+                    return (float(o._start), float(o._end))
+                except Exception:  # noqa
+                    return None
+            f = f.f_back
+        return None
 
     def fn(self, size, seed, kw):
         dtype = kw.get("dtype", torch.float64)
         if size == (self.L, *self.shape):
+            own = self._owner()
+            if own is not None:
+                self.owners.setdefault(seed, set()).add(own)
             base = self.by_seed.get(seed)
             if base is None:
                 if self.next + self.numel > self.L:
@@ -304,6 +331,12 @@ def _run_law(case, log, probes):
         # reported as such (exit 2), never a verdict about the law.
         from ..core import HarnessError
         raise HarnessError("C04: randomness seam not engaged - no torch.randn draw of the sample shape was observed")
+    if lab.chance_collisions() == 1:
+        # exactly one 32-bit seed shared by two nodes: a birthday collision of the library's 32-bit node seeds, not a
+        # defect of the law (a systematic sharing - wrapped spawn keys, a reused seed attribute - shows up as many
+        # collisions or as none at all, and is judged). The run is inconclusive: counted, not judged.
+        probes["inconclusive_32bit_seed_collision"] = 1
+        return built if "built" in locals() else None, plan, n_q
     gram_check(answers, numel, probes, foreign=lab.foreign)
     return built if "built" in locals() else None, plan, n_q
 
